@@ -229,9 +229,11 @@ def rule_add(ck):
     dl = flow_of(cdf)
     for r in [n for n in dl.cfg.nodes if n.kind == "return"]:
         e = dl.expand(r.expr, r)
-        ok = isinstance(e, ast.Call) and call_name(e) == "DataFrame" and e.args and canon(e.args[0]) == "self.constraint_matrix" and \
-            canon(next((k.value for k in e.keywords if k.arg == "columns"), ast.Constant(None))) == "self.station_ids" and \
-            canon(next((k.value for k in e.keywords if k.arg == "index"), ast.Constant(None))) == "self.constraint_index"
+        from ..rules import uncopy
+        ok = isinstance(e, ast.Call) and call_name(e) == "DataFrame" and e.args and canon(uncopy(e.args[0])) == "self.constraint_matrix" and \
+            canon(uncopy(next((k.value for k in e.keywords if k.arg == "columns"), ast.Constant(None)))) == "self.station_ids" and \
+            canon(uncopy(next((k.value for k in e.keywords if k.arg == "index"), ast.Constant(None)))) == "self.constraint_index" and \
+            all(k.arg in ("columns", "index", "copy", "dtype") for k in e.keywords)
         ck.require(ok, "C12.R2", cdf, r.expr, ok="frame labelled by station ids and constraint names", bad="constraints_as_df does not label columns=station_ids, index=constraint_index",
                    sink="as_df:labels")
     # current.name = name, and uniqueness test on every path from each definition of `name`
